@@ -42,7 +42,7 @@ checks = {
  "C18": ("pairmon", "exploration", "3 C18", "runtime monitoring: differential paired runs of the real model, override on the batch line vs the same edit in a copied parameter folder; result files compared byte for byte",
    "Every overridable base / per-stage / per-organ parameter x every shipped annual main crop file; 35 % of the pairs are 5-6 year runs in which other crops (preferably with more development stages) are grown before the crop of the overridden file; valid values: override == file edit; out-of-range value or index: run == run without overrides; an override naming a crop file that no crop of the run reads (classic and YAML names): run == run without overrides."),
  "C03": ("batchmon", "exploration", "3 C03", "runtime monitoring: Go race detector + event-trace checker + result-hash comparison over the real hermes2go binary under randomised schedules (concurrency, line order, GOMAXPROCS, injected delays); porcupine linearizability check of recorded file-pool histories",
-   "Every line's result files equal its solo reference under every explored schedule (batches contain repeated lines, exact duplicates, lines that log while valid, custom crop codes, a numerically unstable project, a project whose soil uses a texture class that only its own parameter folder defines, a project whose own fertiliser table redefines a shipped fertiliser, a project whose csv soil file keeps the classic columns under their old names, and configuration variants of one project), repeated solo runs reproduce, exactly one run_start/run_end per line in the trace, no race report, file-pool histories (files from a few bytes to 4 MiB, first-load storms) linearizable against a load-once model; the interleavings seen (max simultaneous runs, distinct completion orders) are reported."),
+   "Every line's result files equal its solo reference under every explored schedule (batches contain repeated lines, exact duplicates, lines that log while valid, custom crop codes, a numerically unstable project, a project whose soil uses a texture class that only its own parameter folder defines, a project whose own fertiliser table redefines a shipped fertiliser, a project whose csv soil file keeps the classic columns under their old names, a project whose weather file begins after the simulation start together with variant lines that run it with the complete series, and configuration variants of one project), repeated solo runs reproduce, exactly one run_start/run_end per line in the trace, no race report, file-pool histories (files from a few bytes to 4 MiB, first-load storms) linearizable against a load-once model; the interleavings seen (max simultaneous runs, distinct completion orders) are reported."),
  "C11": ("batchmon", "fault_enumeration", "3 C11", "runtime monitoring: fault enumeration (reported-error class x position x concurrency) over the real hermes2go binary with race detector, trace checker and result-hash comparison; bounded-progress monitor on logical steps for termination",
    "Seven reported-error classes, each in several shapes (other horizon, window boundaries incl. the harvest day, single-day / late gaps, ids extending or shortening an existing id), each fail only their own line with the expected message, all other lines equal their solo results, the summary lists exactly the failed ids; runs incl. fertiliser prediction at latitudes -70..80 stay within the logical step bounds; a crash on a valid generated input is reported."),
 }
